@@ -283,6 +283,7 @@ var (
 	errPeeringEmptySeg1              = errors.New("zero-length segment[1] in peering path")
 	errPeeringNonemptySeg2           = errors.New("non-zero-length segment[2] in peering path")
 	errBFDSessionDown                = errors.New("bfd session down")
+	errBFDAuthNotSupported           = errors.New("bfd authentication not supported")
 	errExpiredHop                    = errors.New("expired hop")
 	errIngressInterfaceInvalid       = errors.New("ingress interface invalid")
 	errMacVerificationFailed         = errors.New("MAC verification failed")
@@ -1071,6 +1072,12 @@ func (p *scionPacketProcessor) processBFD(data []byte) disposition {
 	session := p.pkt.Link.BFDSession()
 	if session == nil {
 		return errorDiscard("error", errNoBFDSessionFound)
+	}
+	// BFD authentication is not supported (the session discards such messages anyway) and the
+	// decoder indexes the authentication section without checking its length: a message with the
+	// A bit and a short section would panic there. Do not decode such messages.
+	if len(data) > 1 && data[1]&0x04 != 0 {
+		return errorDiscard("error", errBFDAuthNotSupported)
 	}
 	bfd := &p.bfdLayer
 	if err := bfd.DecodeFromBytes(data, gopacket.NilDecodeFeedback); err != nil {
